@@ -330,6 +330,33 @@ theorem deadlock_free (opss : List (List OpSk)) (sched : List Nat) (ts : List Th
     obtain ⟨t', ht'⟩ := Option.isSome_iff_exists.mp hen
     exact ⟨i, t, ts.set i t', hti, hg, by simp [step, hti, ht']⟩
 
+
+/-- A lock nobody holds can be taken by ANY thread waiting for it, in any mode: whichever waiter a
+lock implementation prefers (readers first, writers first, FIFO), granting a free lock is a step of
+the system.  Together with `deadlock_free` (there always is a free lock somebody waits for, or a
+release / upgrade that needs no grant): no queueing policy can stall the workers. -/
+theorem any_waiter_can_take_free_lock (ts : List Thread) (i : Nat) (t : Thread) (l : LockId) (m : Mode) (p : List Act)
+    (hti : ts[i]? = some t) (hp : t.prog = .acq l m :: p) (hfree : ∀ o ∈ ts, holds o.held l = false) :
+    ∃ ts', step ts i = some ts' := by
+  have hself : holds t.held l = false := hfree t (List.mem_of_getElem? hti)
+  have hothers : ∀ o ∈ ts.eraseIdx i, holds o.held l = false := fun o ho => hfree o (List.mem_of_mem_eraseIdx ho)
+  have hc : compatible (ts.eraseIdx i) l m = true := by
+    cases m with
+    | read =>
+      simp only [compatible, List.all_eq_true]
+      intro o ho; simp [holds_false_holdsIn _ (hothers o ho)]
+    | upg =>
+      simp only [compatible, List.all_eq_true]
+      intro o ho; simp [holds_false_holdsIn _ (hothers o ho)]
+    | write =>
+      simp only [compatible, List.all_eq_true]
+      intro o ho; simp [hothers o ho]
+  obtain ⟨held, prog⟩ := t
+  simp only at hp hself
+  subst hp
+  refine ⟨ts.set i ⟨(l, m) :: held, p⟩, ?_⟩
+  simp [step, hti, stepT, hself, hc]
+
 /-! ### termination: every run is as long as the programs, no longer -/
 
 def todo (ts : List Thread) : Nat := (ts.map (fun t => t.prog.length)).sum
